@@ -138,9 +138,14 @@ def _range_obligation(dt, v):
     info = _np.iinfo(dt)
     vals = v.flat if isinstance(v, _np.ndarray) else [v]
     for x in vals:
-        if isinstance(x, Sym) and not isinstance(x, SBool):
+        if isinstance(x, SBool):
+            continue
+        if isinstance(x, Sym):
             core.CUR.check(core.And(x >= int(info.min), x <= int(info.max)),
                            f"no wrap-around storing into {dt}")
+        elif isinstance(x, (int, _np.integer)) and not isinstance(x, bool):
+            if not (int(info.min) <= int(x) <= int(info.max)):
+                core.CUR.check(False, f"no wrap-around storing into {dt}")
 
 
 def sarr(obj, decl=None):
